@@ -1,13 +1,17 @@
 package main
 
 import (
+	"reflect"
+
 	"encoding/json"
 	"fmt"
+	"github.com/formancehq/numscript/internal/parser"
 	"strings"
 
 	"github.com/formancehq/numscript/internal/lsp"
 	"github.com/formancehq/numscript/verifharness/fw"
 	"github.com/formancehq/numscript/verifharness/gen"
+	"github.com/formancehq/numscript/verifharness/rng"
 )
 
 type navTarget struct {
@@ -220,5 +224,187 @@ func navigation(c *fw.Ctx) {
 		if c.WantSample() && i%9 == 4 {
 			c.Sample(map[string]any{"case": id, "text": pr.Text, "targets": len(targets), "positions": len(pr.Text)})
 		}
+		if !damagedNavigation(c, r, sc, pr, lk) {
+			return
+		}
 	}
+}
+
+// damagedNavigation: the document while it is being typed. The text is cut before some token of a
+// statement (everything that follows is missing), or one token of a statement is deleted. What
+// counts as a use of a declared variable in such a text is read off the parser's own tree of
+// that text (its exactness is C15's business): every Variable node the tree holds, in a statement
+// or in the origin of a later declaration, whose name has a complete declaration. Hover must
+// identify it with exactly that node's range and the declared type; definition must answer the
+// range of the declaration's name.
+func damagedNavigation(c *fw.Ctx, r *rng.R, sc *gen.Script, pr *gen.Printed, lk int) bool {
+	if len(sc.Stmts) == 0 || len(pr.TokText) < 3 {
+		return true
+	}
+	uri := "file:///nav-damaged.num"
+	for round := 0; round < 8; round++ {
+		t := 1 + r.Intn(len(pr.TokText)-1)
+		var text, kind string
+		switch round % 4 {
+		case 0:
+			kind = "cut-before-token"
+			text = pr.Text[:pr.TokOff[t]]
+		case 1, 2:
+			kind = "token-deleted"
+			text = pr.Text[:pr.TokOff[t]] + pr.Text[pr.TokOff[t]+len(pr.TokText[t]):]
+		default:
+			kind = "token-doubled"
+			text = pr.Text[:pr.TokOff[t]] + pr.TokText[t] + " " + pr.Text[pr.TokOff[t]:]
+		}
+		input := func(extra map[string]any) any {
+			d := map[string]any{"text": text, "damage": kind, "damaged_at_token": pr.TokText[t], "full_text": pr.Text, "layout": lk}
+			for k, v := range extra {
+				d[k] = v
+			}
+			return d
+		}
+		var tree parser.ParseResult
+		if p, _, _ := fw.Catch(func() { tree = parser.Parse(text) }); p {
+			continue // C14's business
+		}
+		type declInfo struct {
+			idx int
+			typ string
+			rng parser.Range
+		}
+		decls := map[string]declInfo{}
+		for i, d := range tree.Value.Vars {
+			if d.Name == nil || d.Type == nil || d.Name.Name == "" {
+				continue
+			}
+			if _, dup := decls[d.Name.Name]; !dup {
+				decls[d.Name.Name] = declInfo{i, d.Type.Name, d.Name.Range}
+			}
+		}
+		type use struct {
+			v      *parser.Variable
+			origin int // index of the declaration whose origin holds the use; len(Vars) for statements
+		}
+		var uses []use
+		for i, d := range tree.Value.Vars {
+			if d.Origin != nil {
+				for _, v := range variablesIn(reflect.ValueOf(d.Origin)) {
+					uses = append(uses, use{v, i})
+				}
+			}
+		}
+		for _, v := range variablesIn(reflect.ValueOf(tree.Value.Statements)) {
+			uses = append(uses, use{v, len(tree.Value.Vars)})
+		}
+		if len(uses) == 0 {
+			continue
+		}
+		st := lsp.InitialState()
+		_, _, pk, pv, fr := handle(&st, "textDocument/didOpen", map[string]any{"textDocument": map[string]any{"uri": uri, "languageId": "numscript", "version": 1, "text": text}})
+		if pk {
+			c.Violation("panic:lsp.Handle:"+fr, fmt.Sprintf("didOpen panics: %v", pv), input(nil))
+			return false
+		}
+		for _, u := range uses {
+			d, ok := decls[u.v.Name]
+			if !ok || d.idx >= u.origin {
+				continue // undeclared, or not declared yet where it is used
+			}
+			rg := u.v.Range
+			if rg.End.Line != rg.Start.Line || rg.End.Character <= rg.Start.Character {
+				continue
+			}
+			l, ch := rg.Start.Line, rg.Start.Character+(rg.End.Character-rg.Start.Character)/2
+			p := map[string]any{"textDocument": map[string]any{"uri": uri}, "position": map[string]any{"line": l, "character": ch}}
+			hov, _, pk1, pv1, fr1 := handle(&st, "textDocument/hover", p)
+			def, _, pk2, pv2, fr2 := handle(&st, "textDocument/definition", p)
+			c.Evals(2)
+			ex := map[string]any{"line": l, "character": ch, "hover": hov, "definition": def, "use_in_the_parsed_tree": fmt.Sprintf("$%s at %d:%d-%d:%d", u.v.Name, rg.Start.Line, rg.Start.Character, rg.End.Line, rg.End.Character)}
+			if pk1 || pk2 {
+				c.Violation("panic:lsp.Handle:"+fr1+fr2, fmt.Sprintf("hover/definition panics at %d:%d: %v %v", l, ch, pv1, pv2), input(ex))
+				return false
+			}
+			want := gen.Span{Start: gen.Pos{Line: rg.Start.Line, Char: rg.Start.Character}, End: gen.Pos{Line: rg.End.Line, Char: rg.End.Character}}
+			var h struct {
+				Contents struct {
+					Value string `json:"value"`
+				} `json:"contents"`
+				Range lspRange `json:"range"`
+			}
+			if hov == "null" || json.Unmarshal([]byte(hov), &h) != nil || !sameRange(h.Range, want) || !strings.Contains(h.Contents.Value, "$"+u.v.Name+": "+d.typ) {
+				c.Violation("damaged-document-hover", fmt.Sprintf("the parsed tree of the damaged text (%s %q) holds a use of $%s (declared %s) at %d:%d but hover there answers %s", kind, pr.TokText[t], u.v.Name, d.typ, l, ch, hov), input(ex))
+				return false
+			}
+			wantDecl := gen.Span{Start: gen.Pos{Line: d.rng.Start.Line, Char: d.rng.Start.Character}, End: gen.Pos{Line: d.rng.End.Line, Char: d.rng.End.Character}}
+			var dd struct {
+				URI   string   `json:"uri"`
+				Range lspRange `json:"range"`
+			}
+			if def == "null" || json.Unmarshal([]byte(def), &dd) != nil || dd.URI != uri || !sameRange(dd.Range, wantDecl) {
+				c.Violation("damaged-document-definition", fmt.Sprintf("the parsed tree of the damaged text (%s %q) holds a use of $%s at %d:%d but definition there answers %s", kind, pr.TokText[t], u.v.Name, l, ch, def), input(ex))
+				return false
+			}
+			c.Count("uses_navigated_in_damaged_documents", 1)
+		}
+	}
+	return true
+}
+
+// variablesIn lists the Variable nodes below v (generic walk over the parser's tree).
+func variablesIn(v reflect.Value) []*parser.Variable {
+	var out []*parser.Variable
+	var walk func(v reflect.Value, depth int)
+	walk = func(v reflect.Value, depth int) {
+		if depth > 400 || !v.IsValid() {
+			return
+		}
+		switch v.Kind() {
+		case reflect.Ptr:
+			if v.IsNil() {
+				return
+			}
+			if x, ok := v.Interface().(*parser.Variable); ok {
+				if x.Name != "" {
+					out = append(out, x)
+				}
+				return
+			}
+			walk(v.Elem(), depth+1)
+		case reflect.Interface:
+			if !v.IsNil() {
+				walk(v.Elem(), depth+1)
+			}
+		case reflect.Slice:
+			for i := 0; i < v.Len(); i++ {
+				walk(v.Index(i), depth+1)
+			}
+		case reflect.Struct:
+			if fc, ok := v.Interface().(parser.FnCall); ok && (fc.Caller == nil || strings.HasPrefix(fc.Caller.Name, "<missing")) {
+				return // a call whose name is missing (the parser conjures a token without a place in the text)
+			}
+			for i := 0; i < v.NumField(); i++ {
+				if v.Type().Field(i).IsExported() {
+					walk(v.Field(i), depth+1)
+				}
+			}
+		}
+	}
+	walk(v, 0)
+	return out
+}
+
+func tokClass(t string) string {
+	switch {
+	case strings.HasPrefix(t, "$"):
+		return "$var"
+	case strings.HasPrefix(t, "@"):
+		return "@acct"
+	case strings.HasPrefix(t, "\""):
+		return "string"
+	case t[0] >= '0' && t[0] <= '9' || t[0] == '-':
+		return "number"
+	case t[0] >= 'A' && t[0] <= 'Z':
+		return "ASSET"
+	}
+	return t
 }
